@@ -171,13 +171,20 @@ def trait_sel(enc):
             ('len', PG, 'final(buf)@.len() == old(buf)@.len()'),
             ('reject_short', ('C13', 'C05'), 'old(buf)@.len() < self.min_len() ==> r is Err && final(buf)@ == old(buf)@'),
             ('accept', ('C05', 'C13', 'C01', 'C12'), 'old(buf)@.len() >= self.min_len() ==> r is Ok && self.%s_ok(old(buf)@, final(buf)@)' % v)]),
-        '%scrypt_b2b' % v[:2]: FnC(ret='r', external_body=True, props=PG, kani=('cts_*',), ensures=[
+        '%scrypt_b2b' % v[:2]: FnC(ret='r', props=PG, kani=('cts_*',), closures={1: CLOSURE_B2B % v}, ensures=[
             ('len', PG, 'final(out_buf)@.len() == old(out_buf)@.len()'),
             ('reject_unequal', ('C13',), 'in_buf@.len() != old(out_buf)@.len() ==> r is Err && final(out_buf)@ == old(out_buf)@'),
             ('reject_short', ('C13', 'C05'), 'in_buf@.len() == old(out_buf)@.len() && in_buf@.len() < self.min_len() ==> r is Err && final(out_buf)@ == old(out_buf)@'),
             ('accept', ('C05', 'C13', 'C01', 'C12'), 'in_buf@.len() == old(out_buf)@.len() && in_buf@.len() >= self.min_len() ==> r is Ok && self.%s_ok(in_buf@, final(out_buf)@)' % v)],
-            note='`.map_err(|NotEqualError| Error).and_then(|buf| ..)`: pattern-parameter closures and Result::and_then are outside this Verus (probed); contract checked by the cts_* harnesses (bounded)'),
+            note='closure contracts spliced in (Verus reads closure contracts only from annotations); the pattern parameter `|NotEqualError|` is rewritten to `|_pat: NotEqualError|`'),
     })
+
+
+CLOSURE_B2B = '''-> (rc: Result<(), Error>)
+                requires buf.wf()
+                ensures buf.out_fut().len() == buf.out_cur().len(),
+                    buf.out_cur().len() < self.min_len() ==> rc is Err && buf.out_fut() == buf.out_cur(),
+                    buf.out_cur().len() >= self.min_len() ==> rc is Ok && self.%s_ok(buf.in_val(), buf.out_fut())'''
 
 
 def lib_mod():
